@@ -2595,6 +2595,11 @@ def gen(rng, tier):
                             "meths": [["m0", ["const", ["s", "two"]]], ["id1", ["ident"]], ["gen1", ["gen"]]]}]}
     for e in EDGE + REFL_EDGE:
         cases.append(_case(rng, e, env=fixed))
+    # the same environment with every string an instance of a str SUBCLASS: format strings held in variables
+    fixed_sub = dict(fixed, strsub=True)
+    for e in ["s.format(x)", "s.format_map(d)", "(s).format(x)", "s.format(y, x)", "'{0._priv}'.format(x)", "s", "s + 'a'", "s.upper()", "len(s)",
+              "str.format(s, x)"] + [e for e in EDGE if "format" in e][:12]:
+        cases.append(_case(rng, e, env=fixed_sub))
     reps = 1 if tier == "quick" else 6
     for _ in range(reps):
         for e in EDGE:
